@@ -1335,6 +1335,11 @@ class Ev:
                 return a + b
             if isinstance(a, Str) != isinstance(b, Str):
                 raise _Raise(node, "concatenating text with %r" % (b if isinstance(a, Str) else a))
+        if isinstance(op, ast.Mult) and ((isinstance(a, ListV) and isinstance(b, int)) or (isinstance(b, ListV) and isinstance(a, int))) and not isinstance(a, bool) and not isinstance(b, bool):
+            lst, n = (a, b) if isinstance(a, ListV) else (b, a)
+            if isinstance(lst, SetV):
+                raise _Raise(node, "unsupported operand: set * int", "TypeError")
+            return type(lst)(lst.items * n)  # the same element objects repeated, as in Python
         if isinstance(op, ast.Sub) and isinstance(a, int) and isinstance(b, int):
             return a - b
         if isinstance(op, ast.Mult) and isinstance(a, int) and isinstance(b, int):
